@@ -32,8 +32,14 @@ NETWORKS = [[1, 6], [1, 5], [2, 6, 8], [1, 3, 4], [1, 9, 6]]
 def placed(shape, x, y, th):
     """global-frame shape spec of an obstacle shape (frame origin centred) at a pose"""
     if shape[0] == "rect":
+        if shape[3] or shape[4] or shape[5]:
+            assert th == 0, "off-centre shapes are only placed by pure translation (the pivot of a rotation is not fixed by the statement)"
+            return ["rect", shape[1], shape[2], x + shape[3], y + shape[4], shape[5]]
         return ["rect", shape[1], shape[2], x, y, th]
     if shape[0] == "circle":
+        if shape[2] or shape[3]:
+            assert th == 0
+            return ["circle", shape[1], x + shape[2], y + shape[3]]
         return ["circle", shape[1], x, y]
     c, s = (1.0, 0.0) if th == 0 else (math.cos(th), math.sin(th))
     return ["poly", [[x + c * px - s * py, y + s * px + c * py] for px, py in shape[1]], th != 0]
@@ -94,6 +100,9 @@ def pool():
     static("s-hex-rot", hexa, 11.0, 4.0, math.pi / 2)
     # non-convex outline around the start of lanelet 4: the centroid lies on the lanelet, the polygon does not touch it (orientation 0: pure translation)
     static("s-C-around-lanelet-4", ["poly", [[-4.0, -2.25], [1.0, -2.25], [1.0, -1.25], [-3.0, -1.25], [-3.0, 1.25], [1.0, 1.25], [1.0, 2.25], [-4.0, 2.25]]], 12.0, 0.25, 0.0)
+    # the shape's reference point is not its centre: the obstacle's position lies in lanelet 1, the shape lies in lanelet 6 (orientation 0)
+    static("s-rect-offcentre", ["rect", 1.0, 1.0, 0.0, 2.0, 0.0], 4.0, 1.0, 0.0)
+    static("s-poly-offcentroid", ["poly", [[-0.5, 1.5], [0.5, 1.5], [0.5, 2.5], [-0.5, 2.5]]], 4.0, 1.0, 0.0)
     dyn("d-rect-traj", rect, [(2.0, 1.0, 0.0), (5.0, 1.5, 0.2), (8.0, 2.5, 0.4)])
     dyn("d-rect-traj-late", rect, [(1.0, 3.0, 0.0), (4.0, 3.0, 0.0), (9.5, 3.0, 0.0), (13.0, 3.0, 0.0)], t0=2)
     dyn("d-small-traj", small, [(4.0, 5.0, 0.0), (7.0, 6.5, 0.5)])
@@ -281,6 +290,10 @@ def h_enabled(model):
     for n in sorted(shelved):
         if n not in present:
             ops.append(["readd", n])          # the very object that was assigned and then removed (it still carries its lanelet assignment)
+    for n in sorted(present):
+        # an obstacle object with the id of a contained obstacle that already carries a lanelet assignment (it was assigned in another scenario on
+        # the same map): the add is rejected with ValueError, and nothing changes
+        ops.append(["readd_rejected", n])
     if present:
         ops.append(["assign"])
     for n in sorted(present):
@@ -304,6 +317,18 @@ def h_step(sc, model, op):
             sc.add_objects(spec.mk_obstacle(P[op[1]])); present.add(op[1])
         elif k == "readd":
             sc.add_objects(sc._verif_shelf[op[1]]); present.add(op[1]); assigned.add(op[1])
+        elif k == "readd_rejected":
+            from commonroad.scenario.scenario import Scenario, ScenarioID
+            other = Scenario(0.1, ScenarioID())
+            for i in H_IDS:
+                other.add_objects(spec.mk_lanelet(netgeo.lanelet_spec(i)))
+            dup = spec.mk_obstacle(P[op[1]])
+            other.add_objects(dup); other.assign_obstacles_to_lanelets()
+            try:
+                sc.add_objects(dup)
+                return ("accepted-although-id-in-use", None), (frozenset(present), frozenset(assigned), frozenset(shelved))
+            except ValueError:
+                pass
         elif k == "assign":
             sc.assign_obstacles_to_lanelets(); assigned |= present
         elif k == "assign_one":
@@ -337,6 +362,9 @@ def h_check(sc, model, model2, op, obs, pre):
     res = Result()
     case = {"op": op}
     out = []
+    if obs[0] == "accepted-although-id-in-use":
+        out.append((f"C07|history|{op[0]}|add-accepted-although-id-in-use", f"{op}"))
+        return out
     if obs[0] != "ok":
         role = P[op[1] if isinstance(op[1], str) else op[1][0]]["role"] if len(op) > 1 else "-"
         out.append((f"C07|history|{op[0]}|{role}|{'remove-' if op[0].startswith('remove') else ''}{obs[0]}", f"{op}: {obs[1]}"))
